@@ -17,29 +17,35 @@ def main():
         if a == "--tier": tier = sys.argv[i + 1]
         if a == "--checks": checks = sys.argv[i + 1].split(",")
         if a == "--label": label = sys.argv[i + 1] + "-"
-    assert sh("git -C /repo status --porcelain").stdout.strip() == "", "/repo not clean"
+    R = "/repo"
+    for i, a in enumerate(sys.argv):
+        if a == "--worktree":   # run against a scratch worktree (VERIF_REPO) instead of /repo itself
+            R = sys.argv[i + 1]
+            sh(f"git -C /repo worktree remove --force {R}")
+            assert sh(f"git -C /repo worktree add --detach {R} HEAD").returncode == 0
+    assert sh(f"git -C {R} status --porcelain").stdout.strip() == "", f"{R} not clean"
     for m in sorted(d for d in os.listdir(work) if d.startswith("m") and os.path.isdir(os.path.join(work, d))):
         d = os.path.join(work, m)
         patch = os.path.join(d, "patch.diff")
         demo = os.path.join(d, "demo.py")
-        env = "cd /repo && PYTHONPATH=/repo/src"
+        env = f"cd {R} && PYTHONPATH={R}/src"
         base_demo = sh(f"{env} /venv/bin/python {demo}")
-        ap = sh(f"git -C /repo apply {patch}")
+        ap = sh(f"git -C {R} apply {patch}")
         if ap.returncode:
             print(m, "PATCH DOES NOT APPLY", ap.stderr[:300]); continue
         try:
-            suite = sh("cd /repo && env -u JTRAUB91_BITS_VERIF PYTHONPATH=/repo/src /venv/bin/python -m pytest -q -p no:cacheprovider --timeout=900 --continue-on-collection-errors 2>&1 | tail -1").stdout.strip()
+            suite = sh(f"cd {R} && env -u JTRAUB91_BITS_VERIF PYTHONPATH={R}/src /venv/bin/python -m pytest -q -p no:cacheprovider --timeout=900 --continue-on-collection-errors 2>&1 | tail -1").stdout.strip()
             mut_demo = sh(f"{env} /venv/bin/python {demo}")
             results = {}
             for c in checks:
                 t0 = time.time()
-                r = sh(f"cd /verif && VERIF_EVIDENCE_DIR=/tmp/verif-scratch-evidence ./check {c} --tier {tier}")
+                r = sh(f"cd /verif && VERIF_REPO={R} VERIF_EVIDENCE_DIR=/tmp/verif-scratch-evidence ./check {c} --tier {tier}")
                 viol = [l for l in r.stdout.splitlines() if l.startswith("VIOLATION")]
                 clauses = [l.strip().split()[0] for l in r.stdout.splitlines() if l.strip().startswith("clause=")]
                 results[c] = {"exit": r.returncode, "violation_lines": len(viol), "clauses": clauses, "wall_s": round(time.time() - t0, 1),
                               "tail": r.stdout.strip().splitlines()[-1:] }
         finally:
-            sh("git -C /repo checkout -- .")
+            sh(f"git -C {R} checkout -- .")
         confirmed = ("12 failed, 187 passed" in suite) and base_demo.returncode == 0 and mut_demo.returncode != 0
         caught = any(v["exit"] == 1 for v in results.values())
         out = os.path.join("/verif/seeded", f"{prop}-{label}{m}")
@@ -51,10 +57,13 @@ def main():
         meta = {"property": prop, "id": f"{prop}-{label}{m}", "needs_to_manifest": note.strip(),
                 "confirmed": confirmed, "suite_with_change": suite, "demo_on_clean_tree_exit": base_demo.returncode,
                 "demo_with_change_exit": mut_demo.returncode,
-                "what_was_run": f"git -C /repo apply patch.diff; pytest suite; demo.py; ./check {' '.join(checks)} --tier {tier}; git -C /repo checkout -- .",
+                "what_was_run": f"git -C {R} apply patch.diff; pytest suite; demo.py; VERIF_REPO={R} ./check {' '.join(checks)} --tier {tier}; git -C {R} checkout -- .",
                 "checks": results, "caught": caught, "base_commit": sh("git -C /repo rev-parse --short HEAD").stdout.strip()}
         json.dump(meta, open(os.path.join(out, "meta.json"), "w"), indent=1)
-        print(m, "confirmed" if confirmed else f"NOT-CONFIRMED(suite={suite!r}, base={base_demo.returncode}, mut={mut_demo.returncode})",
+        print(prop, m, "confirmed" if confirmed else f"NOT-CONFIRMED(suite={suite!r}, base={base_demo.returncode}, mut={mut_demo.returncode})",
               "CAUGHT" if caught else "MISSED", {c: (v["exit"], v["clauses"][:3]) for c, v in results.items()})
+    if R != "/repo":
+        sh(f"git -C /repo worktree remove --force {R}")
+
 
 main()
